@@ -27,6 +27,7 @@ type fmtScen struct {
 	Sibling bool   `json:"sibling"`
 	Ext     string `json:"ext"`
 	RootErr bool   `json:"rootErr"`
+	How     string `json:"how"`
 	OK      bool   `json:"ok"`
 }
 
@@ -40,7 +41,7 @@ func fmtSource(i int, s fmtScen, mod string) string {
 	case "slice":
 		bs, bt = "[]B", "[]B2"
 	}
-	fmt.Fprintf(&b, "type A struct {\n\tV int\n\tB %s\n}\ntype A2 struct {\n\tV string\n\tB %s\n}\ntype B struct{ V int }\ntype B2 struct{ V string }\n\n", bs, bt)
+	fmt.Fprintf(&b, "type A struct {\n\tV int\n\tB %s\n}\ntype A2 struct {\n\tV string\n\tB %s\n}\ntype B struct{ V int }\ntype B2 struct{ V %s }\n\n", bs, bt, map[bool]string{true: "string", false: "int"}[s.How != "mapfunc"])
 	b.WriteString("func mark(v int) string {\n\tswitch v {\n\tcase 5:\n\t\treturn \"E(5)\"\n\tcase 7:\n\t\treturn \"E(7)\"\n\t}\n\treturn \"E(?)\"\n}\n\n")
 	switch s.Ext {
 	case "plain":
@@ -59,7 +60,11 @@ func fmtSource(i int, s fmtScen, mod string) string {
 	}
 	switch s.Fmt {
 	case "variables":
-		b.WriteString("\n// goverter:variables\n// goverter:extend E\nvar (\n")
+		if s.How == "mapfunc" {
+			b.WriteString("\n// goverter:variables\nvar (\n\t// goverter:map V | E\n")
+		} else {
+			b.WriteString("\n// goverter:variables\n// goverter:extend E\nvar (\n")
+		}
 		fmt.Fprintf(&b, "\tConv func(source A) %s\n", res("A2"))
 		if s.Sibling {
 			fmt.Fprintf(&b, "\tConvB func(source B) %s\n", res("B2"))
@@ -70,13 +75,19 @@ func fmtSource(i int, s fmtScen, mod string) string {
 		if s.Fmt == "function" {
 			b.WriteString("// goverter:output:format function\n") // (must precede extend: the format decides how custom functions are parsed)
 		}
-		b.WriteString("// goverter:extend E\n// goverter:output:file ./out/gen.go\n")
+		if s.How != "mapfunc" {
+			b.WriteString("// goverter:extend E\n")
+		}
+		b.WriteString("// goverter:output:file ./out/gen.go\n")
 		name := "C"
 		if s.Ext == "iface" && s.Fmt == "struct" {
 			name = "CI2"
 		}
 		_ = name
 		b.WriteString("type C interface {\n")
+		if s.How == "mapfunc" {
+			b.WriteString("\t// goverter:map V | E\n")
+		}
 		fmt.Fprintf(&b, "\tConv(source A) %s\n", res("A2"))
 		if s.Sibling {
 			fmt.Fprintf(&b, "\tConvB(source B) %s\n", res("B2"))
@@ -315,7 +326,7 @@ func cmdFormats(args []string) {
 	nOK := 0
 	for i, s := range scens {
 		o := byProg[i]
-		r := map[string]any{"id": i, "fmt": s.Fmt, "bk": s.Bk, "sibling": s.Sibling, "ext": s.Ext, "rootErr": s.RootErr, "why": "", "ran": false, "res": []string{"?", "?"},
+		r := map[string]any{"id": i, "fmt": s.Fmt, "bk": s.Bk, "sibling": s.Sibling, "ext": s.Ext, "rootErr": s.RootErr, "how": s.How, "why": "", "ran": false, "res": []string{"?", "?"},
 			"decls": map[string]int{"struct": 0, "method": 0, "func": 0, "init": 0, "other": 0}}
 		if o == nil {
 			r["gen"], r["compiles"], r["apiOK"] = "missing", false, false
